@@ -102,6 +102,12 @@ def main():
             notes = os.path.join(d, "notes.md")
             if os.path.exists(notes):
                 meta["needs_to_manifest"] = " ".join(open(notes).read().split())[:1500]
+            try:
+                old = json.load(open(os.path.join(dst, "meta.json")))
+                if old.get("declined"):
+                    meta["declined"] = old["declined"]          # a recorded decision, not a measurement
+            except (OSError, ValueError):
+                pass
             with open(os.path.join(dst, "meta.json"), "w") as f:
                 json.dump(meta, f, indent=1)
         return 0
